@@ -1,4 +1,4 @@
-\* G07 client life cycle: every route / security / environment / context, 5 calls
+\* G07 client life cycle (quick): 3 calls
 SPECIFICATION LiveC
 CONSTANTS
   Hows = {"new", "ca"}
@@ -6,9 +6,9 @@ CONSTANTS
   Secs = {"none", "sec"}
   EnvsNew = {"absent", "dialstall", "close", "stall", "serve"}
   EnvsCA = {"absent", "dialstall", "close", "stall", "garbage", "serve", "reject"}
-  Ctxs = {"live", "pre", "during", "deadline"}
-  MaxCalls = 5
-  MaxSock = 4
+  Ctxs = {"live", "pre", "during"}
+  MaxCalls = 3
+  MaxSock = 3
   MaxConn = 0
   Kinds = {}
   Bug = {}
